@@ -256,8 +256,14 @@ func (obj *Hmm) SetFinalStates(states []int) error {
     for _, i := range states {
       obj.finalStates[i] = true
     }
-    // clone transition matrix and renormalize
-    obj.Tf = obj.Tr.CloneTransitionMatrix()
+    // the matrix for the last transition is normalized row by row, the
+    // normalization of structured (constrained or hierarchical) transition
+    // matrices does not apply to it
+    if tf, err := NewHmmTransitionMatrix(obj.Tr.GetMatrix(), true); err != nil {
+      return err
+    } else {
+      obj.Tf = tf
+    }
     t1 := NewFloat64(math.Inf(-1))
     t2 := NewFloat64(math.Inf(-1))
     obj.normalizeTf(t1, t2)
